@@ -4,7 +4,17 @@ import json, os
 HERE = os.path.dirname(os.path.dirname(os.path.abspath(__file__)))
 
 # id -> (level, technique, level text, level note, design ref)   (None = not yet claimed)
+MC_NOTE = "Trusted base: the harness's own SimDisk/mkfs/refat/fsmodel (validated by the start-up self-test against the repository's macOS-made disk image and against the crate), block writes atomic and ordered, bounds as stated in the evidence file."
 CLAIMED = {
+ "C01": ("model_checking", "explicit-state BFS over API histories of the real code (fingerprint de-duplication), byte-array reference model",
+         "Every history up to the stated depth over a collision-forcing alphabet (3 open files, 2 volumes on one device, 3 front ends, geometry grid) is executed on the real VolumeManager; every read, length, offset and EOF is compared with a byte-array model and every new state is read back completely.",
+         MC_NOTE, "DESIGN.md section 5 C01"),
+ "C18": ("exploration", "exhaustive input enumeration of the real codecs against independent reference codecs",
+         "All 2^32 FAT date/time pairs, every second 1980..2107, entry field corners x all 256 attribute bytes x both FAT types (hook H1 and end-to-end), and all 8.3 name strings over a class alphabet up to the stated lengths are run through the real functions and compared with codecs written from the FAT specification.",
+         "Trusted base: refat::{encode_ts,decode_ts}, mkfs::short_entry, names83::parse83. Between alphabet classes nothing is claimed.", "DESIGN.md section 5 C18"),
+ "C19": ("model_checking", "exhaustive enumeration of all transitions of the CRC-16 register state machine against bit-serial polynomial division",
+         "All 2^24 messages of length <= 3 cover every (remainder, next byte) transition of the 65536-state CRC-16 register (reachability of all remainders is counted); basis messages, append-CRC identity, length sweeps, all CRC-7 frames with <= 2 argument bits, and every single/double/burst error pattern are checked on the real functions.",
+         "Trusted base: the bit-serial reference division. Induction from transitions to all messages assumes crc16 is a byte-wise fold, probed by the basis and length-sweep messages.", "DESIGN.md section 5 C19"),
 }
 PENDING_REASON = "check not built yet in this round (planned: bounded-exhaustive exploration of the real code, see DESIGN.md section 5)"
 
